@@ -4,6 +4,9 @@ import Pose.Model.LogExp
 import Mathlib.Analysis.SpecialFunctions.Trigonometric.Arctan
 import Mathlib.Analysis.SpecialFunctions.Trigonometric.Bounds
 import Mathlib.Analysis.SpecialFunctions.Exp
+import Mathlib.Analysis.Real.Pi.Bounds
+import Mathlib.Analysis.SpecialFunctions.Trigonometric.ArctanDeriv
+import Mathlib.Analysis.Calculus.Deriv.MeanValue
 import Mathlib.Tactic.Positivity
 import Mathlib.Tactic.NormNum
 import Mathlib.Tactic.Linarith
@@ -735,11 +738,239 @@ theorem Quat.conj_neg_act (q : Quat ℝ) (p : Vec3 ℝ) : q.neg.conj.act p = q.c
 
 theorem Vec3.lt_norm_of_sq_lt {e : ℝ} {x : Vec3 ℝ} (h0 : 0 ≤ e) (h : e * e < x.normSq) : e < x.norm := by
   unfold Vec3.norm
-  exact (Real.lt_sqrt h0).mpr (by rw [sq]; exact h)
+  exact (Real.lt_sqrt h0).mpr (by rw [pow_two]; exact h)
 
 theorem Vec3.norm_axis (a : ℝ) (ha : 0 ≤ a) : (⟨a, 0, 0⟩ : Vec3 ℝ).norm = a := by
   unfold Vec3.norm Vec3.normSq
   simp only [mul_zero, add_zero]
   exact Real.sqrt_mul_self ha
+
+/-! ## series of `arctan` with remainder; regime 3 of `SO3Log` against the exact logarithm -/
+
+theorem arctan_f_deriv (x : ℝ) :
+    HasDerivAt (fun x => Real.arctan x - x + x ^ 3 / 3) (x ^ 4 / (1 + x ^ 2)) x := by
+  have h1 := Real.hasDerivAt_arctan x
+  have h3 : HasDerivAt (fun x : ℝ => x ^ 3 / 3) (x ^ 2) x := by
+    exact ((hasDerivAt_pow 3 x).div_const 3).congr_deriv (by norm_num)
+  have hne : (1 : ℝ) + x ^ 2 ≠ 0 := by positivity
+  exact ((h1.sub (hasDerivAt_id x)).add h3).congr_deriv (by field_simp; ring)
+
+theorem arctan_g_deriv (x : ℝ) :
+    HasDerivAt (fun x => x - x ^ 3 / 3 + x ^ 5 / 5 - Real.arctan x) (x ^ 6 / (1 + x ^ 2)) x := by
+  have h1 := Real.hasDerivAt_arctan x
+  have h3 : HasDerivAt (fun x : ℝ => x ^ 3 / 3) (x ^ 2) x := by
+    exact ((hasDerivAt_pow 3 x).div_const 3).congr_deriv (by norm_num)
+  have h5 : HasDerivAt (fun x : ℝ => x ^ 5 / 5) (x ^ 4) x := by
+    exact ((hasDerivAt_pow 5 x).div_const 5).congr_deriv (by norm_num)
+  have hne : (1 : ℝ) + x ^ 2 ≠ 0 := by positivity
+  exact ((((hasDerivAt_id x).sub h3).add h5).sub h1).congr_deriv (by field_simp; ring)
+
+/-- two-term series of `arctan` with the next term as error bound, for `t ≥ 0` -/
+theorem arctan_series_bounds {t : ℝ} (ht : 0 ≤ t) :
+    t - t ^ 3 / 3 ≤ Real.arctan t ∧ Real.arctan t ≤ t - t ^ 3 / 3 + t ^ 5 / 5 := by
+  have mf : Monotone (fun x => Real.arctan x - x + x ^ 3 / 3) :=
+    monotone_of_deriv_nonneg (fun x => (arctan_f_deriv x).differentiableAt)
+      (fun x => by rw [(arctan_f_deriv x).deriv]; positivity)
+  have mg : Monotone (fun x => x - x ^ 3 / 3 + x ^ 5 / 5 - Real.arctan x) :=
+    monotone_of_deriv_nonneg (fun x => (arctan_g_deriv x).differentiableAt)
+      (fun x => by rw [(arctan_g_deriv x).deriv]; positivity)
+  have h1 := mf ht
+  have h2 := mg ht
+  simp only [Real.arctan_zero] at h1 h2
+  constructor <;> nlinarith
+
+/-- `|arctan t − (t − t³/3)| ≤ |t|⁵/5` for every real `t` -/
+theorem abs_arctan_sub_series (t : ℝ) : |Real.arctan t - (t - t ^ 3 / 3)| ≤ |t| ^ 5 / 5 := by
+  rcases le_or_gt 0 t with h | h
+  · obtain ⟨h1, h2⟩ := arctan_series_bounds h
+    rw [abs_of_nonneg h, abs_of_nonneg (by linarith)]; linarith
+  · obtain ⟨h1, h2⟩ := arctan_series_bounds (t := -t) (by linarith)
+    rw [Real.arctan_neg] at h1 h2
+    rw [abs_of_neg h, abs_of_nonpos (by nlinarith)]
+    have e : (-t) ^ 5 = -(t ^ 5) := by ring
+    have e3 : (-t) ^ 3 = -(t ^ 3) := by ring
+    rw [e3] at h1 h2; rw [e] at h2 ⊢
+    linarith
+
+/-- regime 3 (`‖v‖ ≤ eps`): the two-term series used by the code differs from the regime-1 formula
+`2·atan(‖v‖/w)/‖v‖` (the exact principal logarithm) by at most `2‖v‖⁴/(5|w|⁵)` -/
+theorem so3LogFactor_r3_error (eps vn w : ℝ) (h1 : ¬ eps < vn) (hvn : 0 < vn) (hw : w ≠ 0) :
+    |so3LogFactor eps vn w - 2 * Real.arctan (vn / w) / vn| ≤ 2 * vn ^ 4 / (5 * |w| ^ 5) := by
+  rw [so3LogFactor_r3 _ _ _ h1]
+  have key := abs_arctan_sub_series (vn / w)
+  have e : 2 * (1 / w - vn * vn / (3 * (w * w * w))) - 2 * Real.arctan (vn / w) / vn
+       = -(2 / vn) * (Real.arctan (vn / w) - (vn / w - (vn / w) ^ 3 / 3)) := by field_simp; ring
+  have hwa : 0 < |w| := abs_pos.mpr hw
+  rw [e, abs_mul, abs_neg, abs_div, abs_two, abs_of_pos hvn]
+  calc 2 / vn * |Real.arctan (vn / w) - (vn / w - (vn / w) ^ 3 / 3)|
+      ≤ 2 / vn * (|vn / w| ^ 5 / 5) := by gcongr
+    _ = 2 * vn ^ 4 / (5 * |w| ^ 5) := by rw [abs_div, abs_of_pos hvn]; field_simp
+
+theorem Vec3.smul_sub_smul (a b : ℝ) (v : Vec3 ℝ) : (v.smul a).sub (v.smul b) = v.smul (a - b) := by
+  ext <;> lie_unfold <;> ring
+
+/-! ## `W(−φ,−σ) = e^{−σ}·R(φ)ᵀ·W(φ,σ)` (used for `Log (X⁻¹) = −Log X` on Sim3) -/
+
+/- regime-4 coefficients in terms of E = e^σ, s = sin θ, c = cos θ -/
+theorem ws4_identA (E s c θ σ : ℝ) (hE : E ≠ 0) (hθ : θ ≠ 0) (hσ : σ ≠ 0) (_hcc : θ * θ + σ * σ ≠ 0)
+    (hsc : s ^ 2 + c ^ 2 = 1) :
+    -(((1 / E) * s * (-σ) - ((1 / E) * c - 1) * θ) / (θ * (θ * θ + σ * σ))) =
+      (1 / E) * ((E * s * σ - (E * c - 1) * θ) / (θ * (θ * θ + σ * σ)) + -(s / θ) * ((E - 1) / σ) -
+        θ * θ * (-(s / θ) * (((E - 1) / σ - ((E * c - 1) * σ + E * s * θ) / (θ * θ + σ * σ)) * (1 / (θ * θ))) +
+          (1 - c) / (θ * θ) * ((E * s * σ - (E * c - 1) * θ) / (θ * (θ * θ + σ * σ))))) := by
+  field_simp
+  linear_combination (σ * E * θ) * hsc
+
+theorem ws4_identB (E s c θ σ : ℝ) (hE : E ≠ 0) (hθ : θ ≠ 0) (hσ : σ ≠ 0) (_hcc : θ * θ + σ * σ ≠ 0)
+    (hsc : s ^ 2 + c ^ 2 = 1) :
+    ((1 / E - 1) / (-σ) - (((1 / E) * c - 1) * (-σ) + (1 / E) * s * θ) / (θ * θ + σ * σ)) * (1 / (θ * θ)) =
+      (1 / E) * (((E - 1) / σ - ((E * c - 1) * σ + E * s * θ) / (θ * θ + σ * σ)) * (1 / (θ * θ)) +
+        (1 - c) / (θ * θ) * ((E - 1) / σ) + -(s / θ) * ((E * s * σ - (E * c - 1) * θ) / (θ * (θ * θ + σ * σ))) -
+        θ * θ * ((1 - c) / (θ * θ) * (((E - 1) / σ - ((E * c - 1) * σ + E * s * θ) / (θ * θ + σ * σ)) * (1 / (θ * θ))))) := by
+  field_simp
+  linear_combination (E * σ ^ 2) * hsc
+
+theorem ws4_identC (E σ : ℝ) (hE : E ≠ 0) (hσ : σ ≠ 0) : (1 / E - 1) / (-σ) = (1 / E) * ((E - 1) / σ) := by
+  field_simp
+  ring
+
+open Vec3 Quat Mat3 in
+/-- regime 4 (`θ > eps`, `|σ| > eps`): `W(−φ,−σ) = e^{−σ}·R(φ)ᵀ·W(φ,σ)`  (i.e. `W(−M) = e^{−M}·W(M)`, `M = σ·1 + K`) -/
+theorem rxso3Ws_neg_r4 (eps : ℝ) (phi : Vec3 ℝ) (sg : ℝ) (h0 : 0 ≤ eps) (ht : eps < phi.norm) (hs : eps < |sg|) :
+    rxso3Ws eps ⟨phi.neg, -sg⟩ = Mat3.smul (1 / Real.exp sg)
+      ((polyK 1 (-(2 * Real.cos (phi.norm / 2) * (Real.sin (phi.norm / 2) / phi.norm)))
+        (2 * (Real.sin (phi.norm / 2) / phi.norm) * (Real.sin (phi.norm / 2) / phi.norm)) phi).mul
+        (rxso3Ws eps ⟨phi, sg⟩)) := by
+  have hθ : phi.norm ≠ 0 := ne_of_gt (lt_of_le_of_lt h0 ht)
+  have hσ : sg ≠ 0 := abs_pos.mp (lt_of_le_of_lt h0 hs)
+  have hE : Real.exp sg ≠ 0 := Real.exp_ne_zero sg
+  have hcc : phi.norm * phi.norm + sg * sg ≠ 0 := by
+    have := mul_self_pos.mpr hθ
+    nlinarith [mul_self_nonneg sg]
+  have hsc := Real.sin_sq_add_cos_sq phi.norm
+  have hs2 : 2 * Real.cos (phi.norm / 2) * (Real.sin (phi.norm / 2) / phi.norm) = Real.sin phi.norm / phi.norm := by
+    have := Real.sin_two_mul (phi.norm / 2)
+    rw [show 2 * (phi.norm / 2) = phi.norm by ring] at this
+    rw [this]; ring
+  have hc1 : 2 * (Real.sin (phi.norm / 2) * Real.sin (phi.norm / 2)) = 1 - Real.cos phi.norm := by
+    have := Real.cos_two_mul (phi.norm / 2)
+    have h1 := Real.sin_sq_add_cos_sq (phi.norm / 2)
+    rw [show 2 * (phi.norm / 2) = phi.norm by ring] at this
+    nlinarith
+  have hc2 : 2 * (Real.sin (phi.norm / 2) / phi.norm) * (Real.sin (phi.norm / 2) / phi.norm)
+      = (1 - Real.cos phi.norm) / (phi.norm * phi.norm) := by
+    rw [← hc1]; field_simp
+  rw [rxso3Ws_eq, rxso3Ws_eq]
+  simp only []
+  rw [Vec3.norm_neg, rxso3WsCoef_r4 eps _ (-sg) (by rw [abs_neg]; exact hs) ht, rxso3WsCoef_r4 eps _ sg hs ht]
+  simp only []
+  rw [polyK_neg, polyK_mul, polyK_smul, ← Vec3.norm_sq, hs2, hc2, hc1, Real.exp_neg]
+  have eA := ws4_identA (Real.exp sg) (Real.sin phi.norm) (Real.cos phi.norm) phi.norm sg hE hθ hσ hcc hsc
+  have eB := ws4_identB (Real.exp sg) (Real.sin phi.norm) (Real.cos phi.norm) phi.norm sg hE hθ hσ hcc hsc
+  have eC := ws4_identC (Real.exp sg) sg hE hσ
+  congr 1
+  · linear_combination eC
+  · linear_combination eA
+  · linear_combination eB
+
+
+theorem ws2_identA (s c θ : ℝ) (hθ : θ ≠ 0) (hsc : s ^ 2 + c ^ 2 = 1) :
+    -((1 - c) * (1 / (θ * θ))) =
+      (1 - c) * (1 / (θ * θ)) + -(s / θ) * 1 -
+        θ * θ * (-(s / θ) * ((θ - s) / (θ * θ * θ)) + (1 - c) / (θ * θ) * ((1 - c) * (1 / (θ * θ)))) := by
+  field_simp
+  linear_combination (1 : ℝ) * hsc
+
+theorem ws2_identB (s c θ : ℝ) (hθ : θ ≠ 0) (hsc : s ^ 2 + c ^ 2 = 1) :
+    (θ - s) / (θ * θ * θ) =
+      (θ - s) / (θ * θ * θ) + (1 - c) / (θ * θ) * 1 + -(s / θ) * ((1 - c) * (1 / (θ * θ))) -
+        θ * θ * ((1 - c) / (θ * θ) * ((θ - s) / (θ * θ * θ))) := by
+  field_simp
+  linear_combination (0 : ℝ) * hsc
+/-- regime 2 with `σ = 0` exactly: `W(−φ,0) = R(φ)ᵀ·W(φ,0)` -/
+theorem rxso3Ws_neg_r2 (eps : ℝ) (phi : Vec3 ℝ) (h0 : 0 ≤ eps) (ht : eps < phi.norm) :
+    rxso3Ws eps ⟨phi.neg, 0⟩ =
+      (polyK 1 (-(2 * Real.cos (phi.norm / 2) * (Real.sin (phi.norm / 2) / phi.norm)))
+        (2 * (Real.sin (phi.norm / 2) / phi.norm) * (Real.sin (phi.norm / 2) / phi.norm)) phi).mul
+        (rxso3Ws eps ⟨phi, 0⟩) := by
+  have hθ : phi.norm ≠ 0 := ne_of_gt (lt_of_le_of_lt h0 ht)
+  have hsc := Real.sin_sq_add_cos_sq phi.norm
+  have hs0 : ¬ eps < |(0 : ℝ)| := by rw [abs_zero]; exact not_lt.mpr h0
+  have hs2 : 2 * Real.cos (phi.norm / 2) * (Real.sin (phi.norm / 2) / phi.norm) = Real.sin phi.norm / phi.norm := by
+    have := Real.sin_two_mul (phi.norm / 2)
+    rw [show 2 * (phi.norm / 2) = phi.norm by ring] at this
+    rw [this]; ring
+  have hc1 : 2 * (Real.sin (phi.norm / 2) * Real.sin (phi.norm / 2)) = 1 - Real.cos phi.norm := by
+    have := Real.cos_two_mul (phi.norm / 2)
+    have h1 := Real.sin_sq_add_cos_sq (phi.norm / 2)
+    rw [show 2 * (phi.norm / 2) = phi.norm by ring] at this
+    nlinarith
+  have hc2 : 2 * (Real.sin (phi.norm / 2) / phi.norm) * (Real.sin (phi.norm / 2) / phi.norm)
+      = (1 - Real.cos phi.norm) / (phi.norm * phi.norm) := by
+    rw [← hc1]; field_simp
+  rw [rxso3Ws_eq, rxso3Ws_eq]
+  simp only []
+  rw [Vec3.norm_neg, rxso3WsCoef_r2 eps _ 0 hs0 ht]
+  simp only []
+  rw [polyK_neg, polyK_mul, ← Vec3.norm_sq, hs2, hc2]
+  have eA := ws2_identA (Real.sin phi.norm) (Real.cos phi.norm) phi.norm hθ hsc
+  have eB := ws2_identB (Real.sin phi.norm) (Real.cos phi.norm) phi.norm hθ hsc
+  congr 1
+  · ring
+  · linear_combination eA
+  · linear_combination eB
+
+/-- `Exp(x)⁻¹` acts as the Rodrigues polynomial `1 − (sin θ/θ)K + ((1−cos θ)/θ²)K²` (half-angle form) -/
+theorem so3Exp_conj_act (eps : ℝ) (x : Vec3 ℝ) (h : eps < x.norm) (p : Vec3 ℝ) :
+    (so3Exp eps x).conj.act p =
+      (polyK 1 (-(2 * Real.cos (x.norm / 2) * (Real.sin (x.norm / 2) / x.norm)))
+        (2 * (Real.sin (x.norm / 2) / x.norm) * (Real.sin (x.norm / 2) / x.norm)) x).mulVec p := by
+  rw [so3Exp_closed eps x h, Quat.conj_mk', ← Vec3.neg_smul, Quat.mk'_act, polyK_neg]
+
+/-! ## zero rotation -/
+
+theorem Vec3.zero_smul (c : ℝ) : (Vec3.zero : Vec3 ℝ).smul c = Vec3.zero := by ext <;> lie_unfold <;> ring
+theorem Vec3.zero_norm : (Vec3.zero : Vec3 ℝ).norm = 0 := by
+  unfold Vec3.norm Vec3.normSq Vec3.zero; simp
+theorem polyK_zero (a b c : ℝ) : polyK a b c (Vec3.zero : Vec3 ℝ) = Mat3.smul a Mat3.one := by
+  unfold polyK; ext <;> lie_unfold <;> ring
+theorem Mat3.smul_one_mulVec (a : ℝ) (v : Vec3 ℝ) : (Mat3.smul a Mat3.one).mulVec v = v.smul a := by
+  ext <;> lie_unfold <;> ring
+
+theorem so3Exp_zero (eps : ℝ) (h0 : 0 ≤ eps) : so3Exp eps (Vec3.zero : Vec3 ℝ) = Quat.one := by
+  rw [so3Exp_taylor eps _ (by rw [Vec3.zero_norm]; exact not_lt.mpr h0)]
+  ext <;> lie_unfold <;> simp
+
+theorem SO3Log_one (eps : ℝ) : SO3Log eps (Quat.one : Quat ℝ) = Vec3.zero := by
+  unfold SO3Log
+  have : (Quat.one : Quat ℝ).vec = Vec3.zero := by ext <;> lie_unfold
+  rw [this, Vec3.zero_smul]
+
+
+/-! ## fixed sample values used by the non-vacuity examples of `Proofs/Props/C02.lean` -/
+namespace C02Ex
+
+noncomputable def qU : Quat ℝ := ⟨3 / 5, 0, 0, 4 / 5⟩        -- upper hemisphere, angle 2·atan(3/4)
+noncomputable def qL : Quat ℝ := ⟨3 / 5, 0, 0, -(4 / 5)⟩     -- lower hemisphere (angle beyond π as stored)
+noncomputable def qPi : Quat ℝ := ⟨1, 0, 0, 0⟩               -- rotation angle exactly π
+theorem qU_unit : qU.normSq = 1 := by simp only [qU, Quat.normSq]; norm_num
+theorem qL_unit : qL.normSq = 1 := by simp only [qL, Quat.normSq]; norm_num
+theorem qPi_unit : qPi.normSq = 1 := by simp only [qPi, Quat.normSq]; norm_num
+theorem qU_v : (1 / 1000 : ℝ) < qU.vec.norm :=
+  Vec3.lt_norm_of_sq_lt (by norm_num) (by simp only [qU, Quat.vec, Vec3.normSq]; norm_num)
+theorem qL_v : (1 / 1000 : ℝ) < qL.vec.norm :=
+  Vec3.lt_norm_of_sq_lt (by norm_num) (by simp only [qL, Quat.vec, Vec3.normSq]; norm_num)
+theorem qPi_v : (1 / 1000 : ℝ) < qPi.vec.norm :=
+  Vec3.lt_norm_of_sq_lt (by norm_num) (by simp only [qPi, Quat.vec, Vec3.normSq]; norm_num)
+theorem qU_w : (1 / 1000 : ℝ) < |qU.w| := by simp only [qU]; rw [abs_of_pos (by norm_num)]; norm_num
+theorem qL_w : (1 / 1000 : ℝ) < |qL.w| := by
+  simp only [qL]; rw [abs_neg, abs_of_pos (by norm_num)]; norm_num
+theorem qPi_w : ¬ (1 / 1000 : ℝ) < |qPi.w| := by simp only [qPi, abs_zero]; norm_num
+noncomputable def x1 : Vec3 ℝ := ⟨1, 0, 0⟩
+theorem x1_norm : x1.norm = 1 := Vec3.norm_axis 1 (by norm_num)
+theorem x1_lo : Real.pi * (1 / 1000) < x1.norm := by rw [x1_norm]; linarith [Real.pi_lt_four]
+theorem x1_hi : x1.norm < Real.pi * (1 - 1 / 1000) := by rw [x1_norm]; linarith [Real.pi_gt_three]
+
+end C02Ex
 
 end PP
